@@ -122,7 +122,8 @@ func (p *c03) gen(seed uint64, idx int) c03Case {
 		// typed collections whose first entry holds no pointer while later ones do; maps with a nil entry
 		"{{ psn }}", "{{ stl }}", "{{ mpn }}", "{{ [psn, stl] }}|{{ arrp }}", "{{ psn ~ mpn }}", "{{ {'a': stl, 'b': mpn} }}", "{{ lpn }}{{ psn|last }}", "{{ stl|last }}|{{ stl|first }}", "{{ mpn|last }}{{ mpn|first }}",
 		// keys of different Go types that are numerically equal or print alike
-		"{% for k, v in tie %}{{ k }}={{ v }},{% endfor %}", "{{ tie|first }}|{{ tie|last }}|{{ tie|keys|join(',') }}", "{{ tiep }}", "{{ tie|json_encode|length }}{% for v in tie %}{{ v }}{% endfor %}", "{{ tie|merge({'x': 1})|first }}",
+		"{{ tie2[1] }}|{{ tie2['1'] }}|{{ tie2[2] }}|{{ tie2['2'] }}|{{ tie2[1.0] }}", "{{ tie[1] }}|{{ tie['1'] }}|{{ tie[2] }}", "{{ tie2[n1] }}{{ tie2[n2] }}|{{ ti[n1] }}{{ im3['1'] }}{{ im3[1] }}",
+		"{% for k, v in tie %}{{ k }}={{ v }},{% endfor %}", "{{ tie|first }}|{{ tie|last }}|{{ tie|keys|join(',') }}", "{{ tiep }}", "{{ tie|json_encode|length }}{% for v in tie %}{{ v }}{% endfor %}", "{{ tie|merge({'x': 1})|first }}", "{{ merge(tie, {'z': 1})|json_encode }}", "{{ merge(tie2, tie)|keys|join(',') }}{{ merge(tie2, {'q': 2})|first }}",
 		"{% include 'inc3' with {'a1': a2, 'a2': a3, 'a3': a1, 'n1': n2 + 1, 'n2': 10} %}", "{% include 'inc3' with {'a3': a2 ~ a1, 'a2': a1, 'a1': 'x', 'n2': n1, 'n1': n2} only %}",
 		"{% include 'inc' with m %}", "{% include 'inc' with " + hash(r.Range(3, 6)) + " only %}",
 	}
@@ -246,7 +247,18 @@ func (c c03Case) buildCtx(variant uint64) map[string]interface{} {
 		*x = 100 + i
 		tiep[tieKeys[i]] = x
 	}
+	// keys that the template language considers equal to 1 and 2 although none of them is the Go int a literal index is
+	tie2 := map[interface{}]interface{}{}
+	tie2Keys := []interface{}{int64(1), "1", 1.0, uint8(1), int64(2), "2", float32(2), uint16(2)}
+	for _, i := range r.Perm(len(tie2Keys)) {
+		tie2[tie2Keys[i]] = fmt.Sprintf("%T", tie2Keys[i])
+	}
+	im3 := map[int64]string{}
+	for _, i := range r.Perm(3) {
+		im3[int64(i)] = fmt.Sprintf("i%d", i)
+	}
 	return map[string]interface{}{
+		"tie2": tie2, "im3": im3,
 		"psn": psn, "stl": stl, "mpn": mpn, "lpn": []interface{}{nil, pi}, "arrp": arrp, "tie": tie, "tiep": tiep,
 		"m": m, "m2": m2, "tm": tm, "tm2": tm2, "ti": ti, "ik": ik, "ik2": ik2, "ik3": ik3, "ik4": ik4, "nested": nested,
 		"p": pi, "ps": ps, "pp": ppi, "st": c03Struct{Name: "sv", P: pi, S: s}, "pst": &c03Struct{Name: "psv"}, "lp": []interface{}{pi}, "mp": mp,
